@@ -13,6 +13,9 @@ TrueT == Tok(<<116, 114, 117, 101>>, <<[t |-> "T", v |-> <<>>]>>)
 FalseT == Tok(<<102, 97, 108, 115, 101>>, <<[t |-> "F", v |-> <<>>]>>)
 NilT == Tok(<<110, 105, 108>>, <<[t |-> "N", v |-> <<>>]>>)
 StrA == Tok(<<34, 97, 34>>, <<[t |-> "s", v |-> <<97>>]>>)
+StrB == Tok(<<34, 98, 34>>, <<[t |-> "s", v |-> <<98>>]>>)
+SymC == Tok(<<97, 98, 99>>, <<[t |-> "S", v |-> <<97, 98, 99>>]>>)
+SymD == Tok(<<100, 101, 102>>, <<[t |-> "S", v |-> <<100, 101, 102>>]>>)
 Pool ==
   IF PoolName = "numbers" THEN
        IntToks(42) \cup IntToks(0 - 7) \cup IntToks(0) \cup IntToks(255) \cup LongToks(0 - 19) \cup LongToks(1099511)
@@ -35,7 +38,9 @@ Pool ==
          ArrOpen2(1, 2), ArrOpen2(5, 3),
          ArrOpenRep(<<>>, I1), ArrOpenRep(<<I1>>, I1), ArrOpenRep(<<Tok(DecDyadic(1, 1), <<FV(1, 1)>>)>>, I1), ArrOpenRep(<<>>, TrueT), ArrOpenRep(<<TrueT>>, TrueT),
          ArrOpenRep(<<TrueT, FalseT>>, FalseT), ArrOpenRep(<<>>, StrA), ArrOpenRep(<<StrA>>, StrA), ArrOpenRep(<<NilT>>, NilT), ArrOpenRep(<<I1, I1>>, I1),
-         ArrOpenAny(<<TrueT>>, FalseT), ArrOpenAny(<<FalseT>>, TrueT) } \cup DoubleMixToks \cup {
+         ArrOpenAny(<<TrueT>>, FalseT), ArrOpenAny(<<FalseT>>, TrueT),
+         \* ["a" "b" ...], [abc def ...]: texts differ, what the range continues with is not documented
+         ArrOpenAny(<<StrA>>, StrB), ArrOpenAny(<<SymC>>, SymD) } \cup DoubleMixToks \cup {
          \* two ranges in one array: the second one's step comes from the LAST value of the first ("[1 ... 3 5 ... 9]" = 1 2 3 5 7 9, as at top level)
          Tok(<<91>> \o Dec(1) \o <<32, 46, 46, 46, 32>> \o Dec(3) \o <<32>> \o Dec(5) \o <<32, 46, 46, 46, 32>> \o Dec(9) \o <<93>>, << [t |-> "a", el |-> <<IV(1), IV(2), IV(3), IV(5), IV(7), IV(9)>>] >>),
          Tok(<<91>> \o Dec(0) \o <<32>> \o Dec(1) \o <<32, 46, 46, 46, 32>> \o Dec(3) \o <<32>> \o Dec(5) \o <<32, 46, 46, 46, 32>> \o Dec(11) \o <<93>>, << [t |-> "a", el |-> <<IV(0), IV(1), IV(2), IV(3), IV(5), IV(7), IV(9), IV(11)>>] >>),
